@@ -2,6 +2,8 @@ import NGF.Model.Ownership
 import NGF.Model.OwnershipJudge
 import NGF.Proofs.Ownership
 import NGF.Generated.OwnershipFacts
+import NGF.Props.C17Leader
+import NGF.Proofs.PipelineForeign
 /-
 C17 — resources owned by other controllers are neither configured nor written to.
 
@@ -19,7 +21,9 @@ export NGF.Generated.OwnershipFacts (processGatewayClassesBody buildGraphHead pr
   gatewayGroupKindExpr hrGroupKindExpr grpcGroupKindExpr serviceGroupKindExpr kindGateway kindHTTPRoute
   kindGRPCRoute kindService maxAncestors ngfPolicyAncestorsFullBody processBackendTLSPoliciesGuard
   gatewayClassPredicateCreate gatewayClassPredicateUpdate gatewayClassPredicateDelete updateStatusesPrepareCalls
-  prepareRequestsLoops setterKeepLoops)
+  prepareRequestsLoops setterKeepLoops buildHTTPRouteBody buildGRPCRouteBody snippetsFilterResolverBody
+  snippetsFilterReferencedWrites processRouteRuleFiltersBody snippetsFilterResolverCalls buildSnippetsForContextBody
+  updateStatusesGroupCalls groupAllExceptGateways groupGateways)
 end G
 
 /-! ## The property -/
@@ -124,6 +128,79 @@ configured class is ours even when that class object is absent). -/
 theorem gateways_by_class_name (cfg : Cfg) (s : State) (cs : List GwClass) :
     processGateways s.gws cfg.gcName = processGateways ({ s with classes := cs }).gws cfg.gcName := rfl
 
+/-! ## SnippetsFilters: `Referenced` — and with it the main/http/server/location snippets — only through OUR routes
+
+A SnippetsFilter is NGF's own CRD: every one of them gets a status request (`ignored_but_ours_get_status`). What
+must not happen is that a Route of another controller switches its snippets on. -/
+
+/-- A SnippetsFilter is `Referenced` only if an HTTPRoute/GRPCRoute of ITS namespace that references one of our
+Gateways names it in an ExtensionRef filter. -/
+theorem referenced_snippet_has_own_route (cfg : Cfg) (s : State) (sf : NN)
+    (h : sf ∈ (buildGraph cfg s).refSnippets) :
+    sf ∈ s.snippets ∧ ∃ r ∈ s.routes, foreignRoute cfg s r = false ∧ r.kind ≠ .tls ∧ r.nn.ns = sf.ns ∧
+      sf.name ∈ r.sfRefs := by
+  rw [buildGraph_unfold] at h
+  split at h
+  · simp [Core.empty] at h
+  · simp only [referencedSnippets, List.mem_filter] at h
+    refine ⟨h.1, ?_⟩
+    rcases List.any_eq_true.mp h.2 with ⟨r, hr, hm⟩
+    obtain ⟨h1, h2, h3, h4⟩ := marksSnippet_resolves _ r sf hm
+    exact ⟨r, hr, by simp [foreignRoute, resolvesSome_refsOwn cfg s r h1], h2, h3, h4⟩
+
+/-- **A SnippetsFilter referenced only by foreign (or unattached) Routes is not `Referenced`** — whatever those
+routes' rules, hostnames and filters are, and whatever else the cluster holds. -/
+theorem snippet_referenced_only_by_foreign_not_referenced (cfg : Cfg) (s : State) (sf : NN)
+    (h : ∀ r ∈ s.routes, r.nn.ns = sf.ns → sf.name ∈ r.sfRefs → foreignRoute cfg s r = true) :
+    sf ∉ (buildGraph cfg s).refSnippets := by
+  intro hin
+  obtain ⟨_, r, hr, hf, _, hns, hname⟩ := referenced_snippet_has_own_route cfg s sf hin
+  simp [h r hr hns hname] at hf
+
+/-- Removing any set of SnippetsFilters that are not `Referenced` (e.g. referenced by foreign routes only) changes
+nothing in the graph but their own entries: every other `Referenced` flag, the routes, the policies and all
+other request targets stay. -/
+theorem unreferenced_snippets_removable (cfg : Cfg) (t : State) (k : NN → Bool)
+    (h : ∀ sf ∈ t.snippets, k sf = false → sf ∉ (buildGraph cfg t).refSnippets) :
+    buildGraph cfg { t with snippets := t.snippets.filter k } =
+      { buildGraph cfg t with snippets := (buildGraph cfg t).snippets.filter k } := by
+  rw [buildGraph_unfold] at h
+  rw [buildGraph_unfold, buildGraph_unfold]
+  have hd : disabled cfg { t with snippets := t.snippets.filter k } = disabled cfg t := rfl
+  rw [hd]
+  split
+  · rfl
+  · rename_i hdis
+    simp only [hdis] at h
+    have e : referencedSnippets (allNsNames (gPg cfg t)) t.routes (t.snippets.filter k) =
+        referencedSnippets (allNsNames (gPg cfg t)) t.routes t.snippets := by
+      unfold referencedSnippets
+      apply filter_filter_of_imp
+      intro sf hsf hq
+      cases hk : k sf with
+      | true => rfl
+      | false =>
+        exact absurd (by simp only [referencedSnippets]; exact List.mem_filter.mpr ⟨hsf, hq⟩) (h sf hsf hk)
+    show Core.mk _ _ _ _ _ _ _ _ _ _ = Core.mk _ _ _ _ _ _ _ _ _ _
+    congr 1
+
+/-- **Witness against the order-of-checks variant** (seeded change C17-r3m1: the rules — and with them the
+ExtensionRef resolver — are processed before the route is checked for a parentRef to one of our Gateways):
+`default/xsf` is named only by `xr`, a Route of the other controller's Gateway; the variant marks it
+`Referenced` (its main/http snippets would enter OUR nginx.conf), the model of the code does not. -/
+theorem early_rule_processing_marks_foreign_snippet :
+    (⟨"default", "xsf"⟩ : NN) ∈ referencedSnippetsEarly (allNsNames (processGateways exState.gws exCfg.gcName))
+      exState.routes exState.snippets ∧
+    (⟨"default", "xsf"⟩ : NN) ∉ (buildGraph exCfg exState).refSnippets ∧
+    (∀ r ∈ exState.routes, "xsf" ∈ r.sfRefs → foreignRoute exCfg exState r = true) := by decide
+
+/-- `sf` is referenced by our `hr0` (and by the foreign `xr`): Referenced; `team-a/sf` has the same name in another
+namespace: not Referenced -/
+example : (buildGraph exCfg exState).refSnippets = [⟨"default", "sf"⟩] := by decide
+example : ∀ r ∈ exState.routes, r.nn.ns = "default" → "xsf" ∈ r.sfRefs → foreignRoute exCfg exState r = true := by decide
+example : (buildGraph exCfg { exState with snippets := exState.snippets.filter (fun n => n.name != "xsf") }).snippets.length = 2 := by
+  decide
+
 /-! ## Histories: the class store of a long-lived controller (`GatewayClassPredicate`)
 
 `BuildGraph` is a function of the controller's current store, so over a history the theorems above hold for
@@ -187,15 +264,15 @@ example : buildGraph exCfg exState ≠ Core.empty := by decide
 example : (targets (buildGraph exCfg exState)).map Target.key =
     ["cls/nginx", "cls/nginx-2", "gw/default/gw0", "gw/default/gw1", "HTTPRoute/default/hr0", "HTTPRoute/default/hr1",
      "GRPCRoute/default/shared", "pol:ClientSettingsPolicy/default/csp", "pol:ObservabilityPolicy/default/obs",
-     "btp/default/btp", "snip/default/sf"] := by decide
+     "btp/default/btp", "snip/default/sf", "snip/default/xsf", "snip/team-a/sf"] := by decide
 example : KeysUnique exState := by unfold KeysUnique; decide
-example : foreignRoute exCfg exState ⟨.http, ⟨"default", "xr"⟩, [⟨none, none, none, "fgw", none⟩], true, [⟨"default", "xsvc"⟩]⟩ = true := by
+example : foreignRoute exCfg exState ⟨.http, ⟨"default", "xr"⟩, [⟨none, none, none, "fgw", none⟩], true, [⟨"default", "xsvc"⟩], true, []⟩ = true := by
   decide
 /-- a parentRef with an explicit EMPTY group (the core API group), or group "core", is not a reference to a
 Gateway API Gateway even when kind/namespace/name are those of our Gateway: such a Route is foreign, stays out
 of the graph and gets no request -/
 example : [some "", some "core", some "example.com"].all (fun g =>
-    let r : Route := ⟨.http, ⟨"default", "xr2"⟩, [⟨g, some "Gateway", some "default", "gw0", none⟩], true, []⟩
+    let r : Route := ⟨.http, ⟨"default", "xr2"⟩, [⟨g, some "Gateway", some "default", "gw0", none⟩], true, [], true, []⟩
     foreignRoute exCfg { exState with routes := r :: exState.routes } r &&
     (buildRoute (allNsNames (processGateways exState.gws exCfg.gcName)) r).isNone &&
     !(targets (buildGraph exCfg { exState with routes := r :: exState.routes })).contains (Target.route .http ⟨"default", "xr2"⟩)) = true := by
@@ -473,4 +550,259 @@ theorem facts_setterKeepLoops : G.setterKeepLoops =
    "newNGFPolicyStatusSetter: range prevStatus.Ancestors if string(as.ControllerName) != gatewayCtlrName ancestors = append(ancestors, as)",
    "newSnippetsFilterStatusSetter: range sf.Status.Controllers if string(status.ControllerName) != gatewayCtlrName controllerStatuses = append(controllerStatuses, status)"] := rfl
 
+/-! ### facts behind the SnippetsFilter `Referenced` model and the leadership composition
+
+`sf.Referenced = true` is the ONLY write of the flag (`facts_snippetsFilterReferencedWrites`), inside the resolver
+closure, which is called from `processRouteRuleFilters` only, reached from `buildHTTPRoute`/`buildGRPCRoute` through
+`process*RouteRules` — in both AFTER `if len(sectionNameRefs) == 0 { return nil }` (`facts_build{HTTP,GRPC}RouteBody`:
+the statement order is pinned, which is what the seeded change C17-r3m1 alters). `updateStatuses` makes exactly the
+two `UpdateGroup` calls `opsOf` models, Gateway requests in the second. -/
+
+theorem facts_buildHTTPRouteBody : G.buildHTTPRouteBody =
+  ["r := &L7Route{ Source: ghr, RouteType: RouteTypeHTTP, }",
+   "sectionNameRefs, err := buildSectionNameRefs(ghr.Spec.ParentRefs, ghr.Namespace, gatewayNsNames)",
+   "if err != nil { r.Valid = false return r }",
+   "if len(sectionNameRefs) == 0 { return nil }",
+   "r.ParentRefs = sectionNameRefs",
+   "if err := validateHostnames( ghr.Spec.Hostnames, field.NewPath(\"spec\").Child(\"hostnames\"), ); err != nil { r.Valid = false r.Conditions = append(r.Conditions, staticConds.NewRouteUnsupportedValue(err.Error())) return r }",
+   "r.Spec.Hostnames = ghr.Spec.Hostnames",
+   "r.Attachable = true",
+   "rules, valid, conds := processHTTPRouteRules( ghr.Spec.Rules, validator, getSnippetsFilterResolverForNamespace(snippetsFilters, r.Source.GetNamespace()), )",
+   "r.Spec.Rules = rules",
+   "r.Conditions = append(r.Conditions, conds...)",
+   "r.Valid = valid",
+   "return r"] := rfl
+
+theorem facts_buildGRPCRouteBody : G.buildGRPCRouteBody =
+  ["r := &L7Route{ Source: ghr, RouteType: RouteTypeGRPC, }",
+   "sectionNameRefs, err := buildSectionNameRefs(ghr.Spec.ParentRefs, ghr.Namespace, gatewayNsNames)",
+   "if err != nil { r.Valid = false return r }",
+   "if len(sectionNameRefs) == 0 { return nil }",
+   "r.ParentRefs = sectionNameRefs",
+   "if http2disabled { r.Valid = false msg := \"HTTP2 is disabled - cannot configure GRPCRoutes\" r.Conditions = append(r.Conditions, staticConds.NewRouteUnsupportedConfiguration(msg)) return r }",
+   "if err := validateHostnames( ghr.Spec.Hostnames, field.NewPath(\"spec\").Child(\"hostnames\"), ); err != nil { r.Valid = false r.Conditions = append(r.Conditions, staticConds.NewRouteUnsupportedValue(err.Error())) return r }",
+   "r.Spec.Hostnames = ghr.Spec.Hostnames",
+   "r.Attachable = true",
+   "rules, valid, conds := processGRPCRouteRules( ghr.Spec.Rules, validator, getSnippetsFilterResolverForNamespace(snippetsFilters, r.Source.GetNamespace()), )",
+   "r.Spec.Rules = rules",
+   "r.Valid = valid",
+   "r.Conditions = append(r.Conditions, conds...)",
+   "return r"] := rfl
+
+theorem facts_snippetsFilterResolverBody : G.snippetsFilterResolverBody =
+  ["if len(snippetsFilters) == 0 { return nil }",
+   "if ref.Group != ngfAPI.GroupName || ref.Kind != kinds.SnippetsFilter { return nil }",
+   "sf := snippetsFilters[types.NamespacedName{Namespace: ns, Name: string(ref.Name)}]",
+   "if sf == nil { return nil }",
+   "sf.Referenced = true",
+   "return &ExtensionRefFilter{SnippetsFilter: sf, Valid: sf.Valid}"] := rfl
+
+theorem facts_snippetsFilterReferencedWrites : G.snippetsFilterReferencedWrites =
+  ["snippets_filter.go: sf.Referenced = true"] := rfl
+
+theorem facts_processRouteRuleFiltersBody : G.processRouteRuleFiltersBody =
+  ["errors := routeRuleErrors{}",
+   "valid := true",
+   "for i, f := range filters { filterPath := path.Index(i) validateErrs := validateFilter(validator, f, filterPath) if len(validateErrs) > 0 { errors.invalid = append(errors.invalid, validateErrs...) valid = false continue } if f.FilterType == FilterExtensionRef && f.ExtensionRef != nil { resolved := resolveExtRefFunc(*f.ExtensionRef) if resolved == nil { err := field.NotFound(filterPath.Child(\"extensionRef\"), f.ExtensionRef) errors.resolve = append(errors.resolve, err) valid = false continue } if !resolved.Valid { err := field.Invalid( filterPath.Child(\"extensionRef\"), f.ExtensionRef, \"referenced filter is invalid. See filter status for more details.\", ) errors.resolve = append(errors.resolve, err) valid = false continue } filters[i].ResolvedExtensionRef = resolved } }",
+   "return RouteRuleFilters{Valid: valid, Filters: filters}, errors"] := rfl
+
+theorem facts_snippetsFilterResolverCalls : G.snippetsFilterResolverCalls =
+  ["httproute.go buildHTTPRoute: getSnippetsFilterResolverForNamespace(snippetsFilters, r.Source.GetNamespace())",
+   "grpcroute.go buildGRPCRoute: getSnippetsFilterResolverForNamespace(snippetsFilters, r.Source.GetNamespace())",
+   "common_filter.go processRouteRuleFilters: resolveExtRefFunc(*f.ExtensionRef)"] := rfl
+
+theorem facts_buildSnippetsForContextBody : G.buildSnippetsForContextBody =
+  ["if len(snippetFilters) == 0 { return nil }",
+   "snippetsForContext := make([]Snippet, 0)",
+   "for _, filter := range snippetFilters { if !filter.Valid || !filter.Referenced { continue } snippetValue, ok := filter.Snippets[nc] if !ok { continue } snippetsForContext = append(snippetsForContext, Snippet{ Name: createSnippetName(nc, client.ObjectKeyFromObject(filter.Source)), Contents: snippetValue, }) }",
+   "return snippetsForContext"] := rfl
+
+theorem facts_updateStatusesGroupCalls : G.updateStatusesGroupCalls =
+  ["append(reqs, gcReqs...)",
+   "append(reqs, routeReqs...)",
+   "append(reqs, polReqs...)",
+   "append(reqs, ngfPolReqs...)",
+   "append(reqs, snippetsFilterReqs...)",
+   "h.cfg.statusUpdater.UpdateGroup(ctx, groupAllExceptGateways, reqs...)",
+   "h.cfg.statusUpdater.UpdateGroup(ctx, groupGateways, gwReqs...)"] := rfl
+
+theorem facts_groupAllExceptGateways : G.groupAllExceptGateways =
+  "all-graphs-except-gateways" := rfl
+
+theorem facts_groupGateways : G.groupGateways =
+  "gateways" := rfl
+
+/-- the position of the resolver inside build{HTTP,GRPC}Route: after the parentRef check (`rulesProcessed`) -/
+theorem facts_resolver_after_parentref_check :
+    (G.buildHTTPRouteBody.idxOf "if len(sectionNameRefs) == 0 { return nil }" <
+      G.buildHTTPRouteBody.idxOf "rules, valid, conds := processHTTPRouteRules( ghr.Spec.Rules, validator, getSnippetsFilterResolverForNamespace(snippetsFilters, r.Source.GetNamespace()), )") ∧
+    (G.buildGRPCRouteBody.idxOf "if len(sectionNameRefs) == 0 { return nil }" <
+      G.buildGRPCRouteBody.idxOf "rules, valid, conds := processGRPCRouteRules( ghr.Spec.Rules, validator, getSnippetsFilterResolverForNamespace(snippetsFilters, r.Source.GetNamespace()), )") ∧
+    G.buildHTTPRouteBody.idxOf "rules, valid, conds := processHTTPRouteRules( ghr.Spec.Rules, validator, getSnippetsFilterResolverForNamespace(snippetsFilters, r.Source.GetNamespace()), )" < G.buildHTTPRouteBody.length ∧
+    G.buildGRPCRouteBody.idxOf "rules, valid, conds := processGRPCRouteRules( ghr.Spec.Rules, validator, getSnippetsFilterResolverForNamespace(snippetsFilters, r.Source.GetNamespace()), )" < G.buildGRPCRouteBody.length := by
+  decide +kernel
+
+
 end NGF.Ownership
+
+/-! ## Foreign non-interference over the PIPELINE model with references (`genR = gen ∘ resolve`)
+
+`NGF.Pipeline.gen` (Model/Pipeline.lean, C02) is the model of graph → dataplane → NGINX configuration for the HTTP
+fragment, `NGF.PipelineRefs.resolve` (Model/PipelineRefs.lean, C06) the model of backendRef resolution with Services
+and ReferenceGrants; `genR c` is compared with the REAL http.conf on every in-fragment case (C02 `pipeline`, C06 `refs`,
+and this property's `frag` stream on both sides of every pair). The theorems below are the SET form of C02's
+`noninterference_foreign_fragment`: a whole foreign set X mixed into the cluster in ANY arrival order
+(`Mixed`: `List.Perm` of the concatenations, per kind). Helper lemmas: Proofs/PipelineForeign.lean. -/
+namespace NGF.Props.C17Pipeline
+open NGF.Pipeline NGF.PipelineRefs NGF.PipelineForeign
+
+/-- **Set form, meaning.** For ALL clusters `c` and ALL foreign sets X (`Foreign c x`: GatewayClasses of other names,
+Gateways of other classes, Routes attached to no listener of the served Gateway — every parentRef names another or an
+unknown Gateway or an unknown section, or the namespace is not allowed, or the route is invalid —, Services no
+backendRef of a route of ours names, ReferenceGrants that permit no backendRef of a route of ours), with `c'` = the
+objects of `c` and X in ANY order: NGINX answers every request under the configuration of `c'` as under that of `c`.
+Hypotheses: Kubernetes key uniqueness in `c'` (Gateways, Routes, Services) and no empty match path in `c`. -/
+theorem noninterference_foreign_set (c : ScenarioR) (x : XSet) (c' : ScenarioR) (hm : Mixed c x c')
+    (hf : Foreign c x) (hk : KeyInj c'.gateways) (hrk : RouteKeysNodup (resolve c').routes)
+    (hsk : SvcKeysNodup c'.services) (hp : PathsOKR c) :
+    ∀ q, nginxEvalConf (genR c') q = nginxEvalConf (genR c) q :=
+  genR_mixed_meaning hm hf hk hrk hsk hp
+
+/-- **Set form, configuration.** … and the two configurations are equal up to the order of the default-server ports, of
+the servers and of the locations of each server. -/
+theorem noninterference_foreign_set_equiv (c : ScenarioR) (x : XSet) (c' : ScenarioR) (hm : Mixed c x c')
+    (hf : Foreign c x) (hk : KeyInj c'.gateways) (hrk : RouteKeysNodup (resolve c').routes)
+    (hsk : SvcKeysNodup c'.services) : Conf.equiv (genR c) (genR c') :=
+  genR_mixed_equiv hm hf hk hrk hsk
+
+/-- When the foreign objects arrive after ours (X appended) the configuration is literally the same. -/
+theorem noninterference_foreign_set_appended (c : ScenarioR) (x : XSet) (hf : Foreign c x)
+    (hn : SvcKeysNodup (c.services ++ x.services)) : genR (ext c x) = genR c :=
+  genR_ext c x hf hn
+
+/-- **Referenced Services.** `Graph.ReferencedServices` (the relevance filter of Service/EndpointSlice events) of `c ∪ X`
+is that of `c` up to order — provided no Route of X is in the graph on behalf of the served Gateway. -/
+theorem referencedServices_foreign_set (c : ScenarioR) (x : XSet) (c' : ScenarioR) (hm : Mixed c x c')
+    (hf : Foreign c x) (hk : KeyInj c'.gateways)
+    (hx : ∀ g, winner (resolve c) = some g → ∀ r ∈ x.routes, inGraph g r = false) :
+    (referencedServices c').Perm (referencedServices c) :=
+  referencedServices_mixed hm hf hk hx
+
+/-- the served Gateway of `c ∪ X` is the served Gateway of `c` -/
+theorem served_gateway_foreign_set (c : ScenarioR) (x : XSet) (c' : ScenarioR) (hm : Mixed c x c')
+    (hf : Foreign c x) (hk : KeyInj c'.gateways) : winner (resolve c') = winner (resolve c) :=
+  winner_mixed hm hf hk
+
+/-- **A foreign-controlled configured class disables all configuration**: if no GatewayClass with the configured name
+names our controller — in particular when the class with that name names another controller — the generated
+configuration is empty (no default server, no server), whatever Gateways, Routes, Services and grants exist. -/
+theorem foreign_class_disables_all_gen (c : ScenarioR)
+    (h : ∀ k ∈ c.classes, (k.name == c.cls) = true → (k.ctlr == c.ctlr) = false) :
+    genR c = { ports := [], servers := [] } ∧ ∀ q, nginxEvalConf (genR c) q = .refused := by
+  have hw : winner (resolve c) = none := by
+    unfold winner classOurs
+    have : (resolve c).classes.any (fun k => k.name == (resolve c).cls && k.ctlr == (resolve c).ctlr) = false := by
+      rw [List.any_eq_false]
+      intro k hk
+      have hk' : k ∈ c.classes := hk
+      cases hn : (k.name == c.cls) with
+      | false => simp [show (k.name == (resolve c).cls) = false from hn]
+      | true =>
+        have := h k hk' hn
+        simp [show (k.ctlr == (resolve c).ctlr) = false from this]
+    simp [this]
+  have e : genR c = { ports := [], servers := [] } := by
+    unfold genR gen; rw [hw]
+  refine ⟨e, fun q => ?_⟩
+  rw [e]; simp [nginxEvalConf]
+
+/-- the executable check of the hypothesis `Foreign` (evaluated by `ngfdriver_C17 fragx` on every generated pair) is sound -/
+theorem foreignB_sound (c : ScenarioR) (x : XSet) (h : foreignB c x = true) : Foreign c x :=
+  foreign_of_foreignB h
+
+/-- **The form the driver evaluates** (`ngfdriver_C17 fragx`, on every pair (s, s ∪ X) the harness runs through the real
+pipeline): when the executable check `hypsB` — `Mixed`, `Foreign`, key uniqueness, non-empty paths — accepts the decoded
+pair, NGINX cannot tell the two model configurations apart, and they are equal up to order. -/
+theorem noninterference_foreign_set_checked (c : ScenarioR) (x : XSet) (c' : ScenarioR) (h : hypsB c x c' = true) :
+    (∀ q, nginxEvalConf (genR c') q = nginxEvalConf (genR c) q) ∧ Conf.equiv (genR c) (genR c') :=
+  genR_meaning_of_hypsB h
+
+/-- which Routes are foreign, syntactically: every parentRef names another (or an unknown) Gateway or an unknown section;
+or the Route lives in a namespace no listener of the served Gateway admits -/
+theorem foreign_route_syntactic (g : Gateway) (r : RouteR) :
+    ((∀ p ∈ r.parents, (p.ns == g.ns && p.name == g.name) = false ∨
+        ∃ sn, p.sectionName = some sn ∧ ∀ l ∈ g.listeners, (sn == l.name) = false) → attached g r = false) ∧
+    ((r.ns.toList == g.ns) = false → (∀ l ∈ g.listeners, l.fromAll = false) → attached g r = false) :=
+  ⟨unattached_of_parents_elsewhere, unattached_of_namespace⟩
+
+/-! ### non-vacuity: a cluster, a foreign set of every kind, and a mixed arrival order -/
+
+def lis0 : Listener := ⟨"l0".toList, 80, [], true⟩
+def lisSame : Listener := ⟨"l1".toList, 8080, "*.example.com".toList, false⟩
+def gwOurs : Gateway := ⟨"default".toList, "gw".toList, "nginx".toList, 5, [lis0, lisSame]⟩
+def gwForeign : Gateway := ⟨"default".toList, "fgw".toList, "other".toList, 1, [lis0]⟩
+def mP (p : String) : Match := ⟨false, p.toList, [], [], []⟩
+def ref (ns : Option String) (name : String) : RefGrant.BackendRef := ⟨none, none, ns, name, some 80, none, 0⟩
+def par (name : String) (sect : Option String) : Parent := ⟨"default".toList, name.toList, sect.map (·.toList)⟩
+def r1 : RouteR := ⟨"default", "r1", 7, [par "gw" none], ["cafe.example.com".toList],
+  [⟨[mP "/coffee"], .forward [ref none "svc0"]⟩, ⟨[mP "/tea"], .forward [ref (some "team-b") "svc1"]⟩], true⟩
+/-- foreign: its only parentRef names the other controller's Gateway; it names a Service and needs a grant of its own -/
+def xr : RouteR := ⟨"default", "xr", 1, [par "fgw" none], ["cafe.example.com".toList],
+  [⟨[mP "/coffee"], .forward [ref (some "team-b") "xsvc"]⟩], true⟩
+/-- foreign for the configuration: names OUR Gateway but a section it does not have -/
+def xr2 : RouteR := ⟨"default", "xr2", 2, [par "gw" (some "nope")], [], [⟨[mP "/"], .forward [ref none "xsvc2"]⟩], true⟩
+/-- foreign: another namespace, and the only listener it names admits its own namespace only -/
+def xr3 : RouteR := ⟨"team-a", "xr3", 3, [par "gw" (some "l1")], [], [⟨[mP "/"], .forward [ref none "svc0"]⟩], true⟩
+def grantB (name svc : String) : RefGrant.Grant :=
+  ⟨"team-b", name, [⟨RefGrant.gatewayGroup, "HTTPRoute", "default"⟩], [⟨"", "Service", some svc⟩]⟩
+def exC : ScenarioR :=
+  { cls := "nginx".toList, ctlr := "ctl".toList, classes := [⟨"nginx".toList, "ctl".toList⟩], gateways := [gwOurs],
+    routes := [r1], services := [⟨"default", "svc0", [80]⟩, ⟨"team-b", "svc1", [80]⟩], grants := [grantB "g1" "svc1"] }
+def exX : XSet :=
+  { classes := [⟨"other".toList, "x".toList⟩, ⟨"nginx-2".toList, "ctl".toList⟩], gateways := [gwForeign],
+    routes := [xr, xr2, xr3], services := [⟨"team-b", "xsvc", [80]⟩, ⟨"default", "xsvc2", [80]⟩],
+    grants := [grantB "gx" "xsvc"] }
+def exC' : ScenarioR :=
+  { cls := exC.cls, ctlr := exC.ctlr, classes := (exC.classes ++ exX.classes).reverse,
+    gateways := (exC.gateways ++ exX.gateways).reverse, routes := (exC.routes ++ exX.routes).reverse,
+    services := (exC.services ++ exX.services).reverse, grants := (exC.grants ++ exX.grants).reverse }
+
+example : Mixed exC exX exC' :=
+  ⟨rfl, rfl, (List.reverse_perm _).symm, (List.reverse_perm _).symm, (List.reverse_perm _).symm,
+    (List.reverse_perm _).symm, (List.reverse_perm _).symm⟩
+#guard foreignB exC exX
+#guard hypsB exC exX exC'
+#guard hypsB exC (diffX exC exC') exC' && (diffX exC exC').routes.length == 3 && (diffX exC exC').grants.length == 1
+#guard winner (resolve exC) == some gwOurs && winner (resolve exC') == some gwOurs
+example : KeyInj exC'.gateways := by decide
+example : RouteKeysNodup (resolve exC').routes := by unfold RouteKeysNodup; decide
+example : SvcKeysNodup exC'.services := by unfold SvcKeysNodup; decide
+example : PathsOKR exC := by unfold PathsOKR; decide
+
+def rq (port : Nat) (host path : String) : Req :=
+  { port := port, host := host.toList, path := path.toList, method := "GET".toList, headers := [], query := [] }
+#guard nginxEvalConf (genR exC) (rq 80 "cafe.example.com" "/coffee") == .proxy [("default_svc0_80".toList, 10000)]
+#guard nginxEvalConf (genR exC') (rq 80 "cafe.example.com" "/tea/x") == .proxy [("team-b_svc1_80".toList, 10000)]
+#guard [rq 80 "cafe.example.com" "/coffee", rq 80 "cafe.example.com" "/tea", rq 80 "cafe.example.com" "/", rq 80 "x.org" "/coffee",
+        rq 8080 "a.example.com" "/", rq 81 "cafe.example.com" "/coffee"].all fun q =>
+  nginxEvalConf (genR exC') q == nginxEvalConf (genR exC) q
+-- the hypothesis matters: the same route `xr` naming OUR Gateway (older than r1, same host and path) takes `/coffee` over
+#guard nginxEvalConf (genR { exC' with routes := { xr with parents := [par "gw" none] } :: exC'.routes })
+    (rq 80 "cafe.example.com" "/coffee") == .proxy [("team-b_xsvc_80".toList, 10000)]
+#guard !foreignB exC { exX with routes := [{ xr with parents := [par "gw" none] }] }
+-- … and so do the Services / grants clauses: a Service of X that a route of ours names, a grant of X that permits a
+-- reference of ours, are not foreign
+#guard !foreignB exC { services := [⟨"default", "svc0", [81]⟩] }
+#guard !foreignB exC { grants := [grantB "g2" "svc1"] }
+#guard (referencedServices exC').isPerm (("default", "xsvc2") :: ("team-a", "svc0") :: referencedServices exC)
+#guard (referencedServices (ext exC { exX with routes := [xr] })).isPerm (referencedServices exC)
+
+/-- **Why `referencedServices_foreign_set` asks for more than `Foreign`**: a Route that names OUR Gateway with a section
+it does not have attaches nowhere (`attached = false`: foreign for the configuration) but IS in the graph on behalf of the
+Gateway, and the code (`buildReferencedServices`) tracks its backend Services. -/
+theorem unknown_section_route_is_tracked :
+    attached gwOurs xr2 = false ∧ inGraph gwOurs xr2 = true ∧
+    ("default", "xsvc2") ∈ referencedServices (ext exC { routes := [xr2] }) ∧
+    ("default", "xsvc2") ∉ referencedServices exC := by decide
+
+end NGF.Props.C17Pipeline
